@@ -8,15 +8,19 @@ def run(ctx):
     cases, n = serdes.model(ctx, "any", 1 if q else 2)
     out, tres, events = serdes.run_harness(ctx, cases, 0, 40 if q else 400, "serde-any")
     serdes.report(ctx, out, tres, events, {"deserialize"}, {"de"})
-    ctx.cov["evaluations"] = out["any"]
-    ctx.cov["distinct_nontrivial"] = out["any"]
+    ctx.cov["evaluations"] = out["any"] + out["hostile"]
+    ctx.cov["distinct_nontrivial"] = out["any"] + out["hostile"]
+    ctx.cov["hostile_values_x_types"] = out["hostile"]
     ctx.cov["traces_validated_against_impl"] = tres.events
     ctx.cov["exhaustive"] = True
     ctx.cov["rule"] = ("every S-expression value of bounded size over a 12-atom alphabet of every kind (incl. improper lists, vectors where "
                        "lists are expected and vice versa, alists with non-pair entries or improper tails, (variant . payload) forms) x every "
                        "type of the family: from_value under catch_unwind; an error must be a data error; an accepted value x must satisfy "
                        "from_value(to_value(x)) = x; the accept/reject decision is compared with the type-directed reference RefDe where "
-                       "the documentation determines it; the model itself is checked by TLC for 'accepted => normalised'")
+                       "the documentation determines it; the model itself is checked by TLC for 'accepted => normalised'. In addition a fixed "
+                       "pool of hostile values (numbers at and beyond every width incl. 1e300, 3.5e38, infinities, NaN; 40-byte, CJK and emoji "
+                       "text as string, symbol and keyword; a 256-byte vector), each bare and in 8 wrappers (lists, pair, vector, alist key "
+                       "and value, variant forms), goes into every type under the same totality and self-consistency rules")
     ctx.cov["types"] = out["types"]
     ctx.cov["samples"] = [e for e in events if e["res"]["r"] == "ok"][:3] + [e for e in events if e["res"]["r"] == "err"][:2]
     ctx.assumptions += ["serde_derive's handling of unknown, duplicate and missing struct fields is part of the trusted base; encodings the "
